@@ -286,13 +286,12 @@ class SmallVector {
       if (sz < N) {
         ptr = inlineData();
       } else {
-        growToHeap(N * 2);
-        ptr = storage_.heap_.ptr;
+        return emplaceBackGrowing(N * 2, std::forward<Args>(args)...);
       }
     } else {
       size_type sz = rawSize();
       if (sz == storage_.heap_.capacity) {
-        growToHeap(storage_.heap_.capacity * 2);
+        return emplaceBackGrowing(storage_.heap_.capacity * 2, std::forward<Args>(args)...);
       }
       ptr = storage_.heap_.ptr;
     }
@@ -438,6 +437,32 @@ class SmallVector {
     } else {
       ::operator delete(ptr);
     }
+  }
+
+  // emplace_back when the storage is full.  The arguments may refer to an element of this vector
+  // (v.push_back(v[0])), which the reallocation moves from and destroys, so the new element is
+  // constructed in the new block before the old elements are relocated.
+  template <typename... Args>
+  reference emplaceBackGrowing(size_type newCap, Args&&... args) {
+    T* newData = allocateHeap(newCap);
+    T* oldData = data();
+    size_type sz = rawSize();
+
+    new (newData + sz) T(std::forward<Args>(args)...);
+    for (size_type i = 0; i < sz; ++i) {
+      new (newData + i) T(std::move(oldData[i]));
+      oldData[i].~T();
+    }
+
+    if (!isInline()) {
+      deallocateHeap(storage_.heap_.ptr);
+    }
+
+    storage_.heap_.ptr = newData;
+    storage_.heap_.capacity = newCap;
+    size_ = kHeapBit | (sz + 1);
+    assert(rawSize() > 0 && "Size overflow into heap bit");
+    return newData[sz];
   }
 
   // Grow to heap storage with the specified capacity.
